@@ -72,7 +72,7 @@ class C06:
     coq_timeout = 1200
     model_targets = ["Pack.vo", "Corr/C06.vo"]
     proof_target = "Props/C06.vo"
-    theorems = ["C06_total", "C06_bounded", "C06_progress", "C06_error_terminates", "C06_segmentation", "C06_any_two_cuts_agree", "C06_meaning_exists", "C06_exec_segmentation", "C06_unknown_id_skipped"]
+    theorems = ["C06_total", "C06_bounded", "C06_progress", "C06_error_terminates", "C06_segmentation", "C06_any_two_cuts_agree", "C06_meaning_exists", "C06_exec_segmentation", "C06_unknown_id_skipped", "C06_complete_message_delivered", "C06_items_decode", "C06_items_any_cut"]
     allowed_axioms = []
     coq_header = "From Rdest Require Import Base Consts Wire Conn Corr.C06.\nOpen Scope N_scope.\n"
     corr_name = "Connection::recv_frame / parse_frame vs Conn.v"
